@@ -41,12 +41,12 @@ PROPS["C13"] = {
 }
 PROPS["C14"] = {
     "lean": ["MysyncProofs.C14"],
-    "go": [("internal/app", "^TestVerifC14$")],
+    "go": [("internal/app", "^TestVerifC14$"), ("internal/app", "^TestVerifC01$")],
     "level": "proof",
     "components": ["MysyncModel/Select.lean (getMostPriorityNode, getMostDesirableNode with fuel, filterOutNodeFromPositions)"],
     "trusted": ["T8 float64 lags modelled as Int seconds (the code only compares and subtracts; harness lags are whole seconds)",
                 "T6 go-mysql Contain/Equal modelled (see C13)"],
-    "rule": "all lists of 0-2 (thorough 0-3) candidates over 4 sets x 4 lags around the bound x 3 priorities x 3 bounds, each with and without a from-host; random lists of 0-5 over 9 sets (chains and incomparable), 7 lags incl. unknown=99999999, priorities 0-3, bounds {0,1,60,100}. distinct = distinct (list, bound, from); non-trivial = at least two candidates",
+    "rule": "(a) the pure functions: all lists of 0-2 (thorough 0-3) candidates over 4 sets x 4 lags around the bound x 3 priorities x 3 bounds, each with and without a from-host; random lists of 0-5 over 9 sets (chains and incomparable), 7 lags incl. unknown=99999999, priorities 0-3, bounds {0,1,60,100}. distinct = distinct (list, bound, from); non-trivial = at least two candidates; (b) on the 1 500 real performSwitchover runs of the C01 harness (all request kinds incl. a request taken up again after the recorded master already moved): the promoted host is never the host the request moves away from",
     "assumptions": ["bound >= 0 (a negative priority_choice_max_lag makes the Go recursion non-terminating; the property excludes it)"],
     "min_lines": 20000,
     "level_text": "Theorems for all candidate lists and all non-negative bounds: termination of the recursion (fuel = length+1 never runs out), membership, error iff empty, never the from-host, top within bound is chosen, otherwise top or much fresher, top has maximal priority, ties prefer superset then lag, equal priorities coincide with most-recent. Correspondence: real getMostDesirableNode/getMostPriorityNode vs model exhaustively for short lists and randomly beyond.",
@@ -318,16 +318,17 @@ PROPS["C02"] = {
 
 PROPS["C07"] = {
     "facts": ["App.Run", "App.connectDCS", "App.newDBCluster"],
-    "lean": ["MysyncProofs.C07"],
+    "lean": ["MysyncProofs.C07", "MysyncProofs.C07World"],
     "go": [("internal/app", "^TestVerifC07$")],
     "level": "proof",
-    "components": _SIM_COMPONENTS + ["MysyncModel/App/Switchover.lean + SwitchLifecycle.lean (the procedure as an ordered step list over oracle outcomes; a crash is a prefix)"],
+    "components": _SIM_COMPONENTS + ["MysyncModel/App/Switchover.lean + SwitchLifecycle.lean (the procedure as an ordered step list over oracle outcomes; a crash is a prefix)",
+                                         "MysyncModel/App/SwitchWorld.lean (effect of every step on a world of servers and coordination keys; the oracle inputs of the successor's run are read off the world the crash left behind)"],
     "trusted": _SIM_TRUSTED + ["process death = from the chosen external call on, nothing the process sends has any effect (its MySQL statements hang, its coordination session is cut and expires after the session time-out)"],
     "rule": "for 7 base scenarios (manual switchover to / from on 2-4 nodes, automatic failover after a master crash / isolation on 2-4 nodes): a dry run counts the external calls (SQL statements and coordination writes) the managing daemon makes between taking the request up and its terminal record; then the manager is killed after call i for every 12th i (thorough: every i), once with the same host restarted and once with another host taking over; healing 6 virtual minutes. distinct = distinct run; non-trivial = always",
     "assumptions": ["the successor has a working coordination service and servers (the property's 'next manager')"],
     "min_lines": 40,
-    "level_text": "PARTIAL. Proved on the procedure model for every crash point (prefix) and all oracle outcomes: the recorded master is written last and only after the new master is writable; a crash before that leaves the old master key; a lost lock stops the procedure; at most one node is made writable; the request stays in place until a terminal record (hypothesis: the result keys do not already hold this very record). Decided on the real daemons by simulation at the sampled crash points: the successor finishes or rejects the request, the cluster is canonical, no acknowledged transaction is missing.",
-    "level_note": "'The procedure is re-runnable from every intermediate topology and ends canonical' is NOT a theorem (it needs the world model of every intermediate topology); it is checked by the crash-point simulation. Trusted as for C02.",
+    "level_text": "PARTIAL. Proved on the procedure model for every crash point (prefix) and all oracle outcomes: the recorded master is written last and only after the new master is writable; a crash before that leaves the old master key; a lost lock stops the procedure; at most one node is made writable; the request stays in place until a terminal record (hypothesis: the result keys do not already hold this very record). Proved on the world model for a planned switchover in a healed world, for EVERY cluster size, every configuration with a non-negative wait count and EVERY crash point k: the successor's run from the world the first k steps left behind ends with one writable master = the requested = the recorded one and every other server a read-only running replica of it (planned_switchover_is_resumable), and at no point of either run are two servers writable (never_two_writable). Decided on the real daemons by simulation at the sampled crash points for every request kind incl. failover: the successor finishes or rejects the request, the cluster is canonical, no acknowledged transaction is missing.",
+    "level_note": "The world-model theorem covers planned switchovers with every server reachable and every call of the successor succeeding (the 'healed' world the property promises completion in), no client writes during the procedure. Failover (dead master) and runs in which calls of the successor fail are decided by the crash-point simulation only; that simulation found a real hole (known finding). Trusted as for C02.",
     "technique": "Lean 4 proof over the procedure model with crash = prefix + crash-point simulation of the real daemons",
 }
 
